@@ -690,3 +690,20 @@ silent('atom-membership-then-create', ['C04', 'C07', 'C17', 'C20'],
            """        if name not in self._atom_store:
             self._atom_store[name] = Atom(name)
         return self._atom_store[name]"""))
+
+# ---------------------------------------------------------------------------------------------
+# = is the general unifier (round 4)
+
+silent('eq-derefs-first', ['C09'],
+       (E, """    for l in unify(arg1,arg2):
+        yield False""",
+           """    left = get_value(arg1)
+    right = arg2
+    for l in unify(left, right):
+        yield False"""))
+
+fire('eq-left-method', ['C09'], ['C09.M4e'],
+     (E, """    for l in unify(arg1,arg2):
+        yield False""",
+         """    for l in get_value(arg1).unify(arg2):
+        yield False"""))
